@@ -19,14 +19,22 @@ Streams (three-way, DESIGN 5.C02)
            parameter / element of *args / value of **kwargs; functions, methods, lambdas
   flow     (props/c02_flow.py, gen/flowprog.py) the direct oracle on random programs with loops,
            generator functions, nested blocks, closures, comprehensions, with/try, descriptors,
-           magic methods: executed, then Script.infer at every probe the run reached
+           magic methods: executed, then Script.infer at every probe the run reached;
+           (gen/descbind.py) class families: members with a fixed decorator (method / classmethod /
+           staticmethod / property) defined on a base and overridden on subclasses, alternate
+           constructors `cls(..)` / `type(self)(..)`, class attributes holding classes, user
+           descriptors, reached by class-level access on (two-level) subclasses, through
+           instances and class objects held in variables, chains, helper functions, tuple results
+  lookup   class-level access to an (inherited) classmethod returning `cls`: Script.infer vs
+           Model.ClassLookup.jediBoundCls, CPython vs pyBoundCls (exact; ALL hierarchies of <= 3
+           classes over 2 names in the thorough tier, random larger ones)
 """
 import common
 from common import short
 from gen import pycore as P
 from props import c02_flow
 
-MODELS = ['PyCore', 'ArgBind', 'FlowCache']
+MODELS = ['PyCore', 'ArgBind', 'FlowCache', 'ClassLookup']
 LEAN_TARGETS = ['JediModel.Props.C02', 'JediModel.Drivers.C02']
 MANIFEST = dict(
     text='Theorem may_sound_partial over Model/PyCore: for every program of the pure core (literals, names, tuples, '
@@ -58,12 +66,22 @@ MANIFEST = dict(
          'inferred values are the yielded values, element by element; unrolled_loop_mention_rule_witness / '
          'unrolled_loop_direct_cache_witness: weakening either bypass rule loses the second value (kernel-checked); '
          'flow_source_is_modelled. '
+         'Class-level lookup (Model/ClassLookup): classmethod_bound_to_lookup_class (FULL) - for EVERY single-inheritance '
+         'hierarchy, class c and name, `c.name` for a classmethod defined on c or any base binds `cls` to the class '
+         'CPython binds it to (c itself, never the defining base), with the filter fact read from '
+         'klass.py:ClassMixin.get_filters (`ClassFilter(self, node_context=cls.as_context())`); '
+         'classmethod_bound_to_defining_class_witness: with the MRO class in the filter `K2.make()` binds K0 '
+         '(kernel-checked); lookup_source_is_modelled. Tie: Script.infer = jediBoundCls and CPython = pyBoundCls, exact. '
          'Stream flow (direct oracle, no model): random terminating programs with for loops, generator functions with '
          'yields behind nested for/if/with/try blocks and intermediate locals, closures, lambdas, comprehensions, '
          'containers, decorators, property/staticmethod/classmethod, __getitem__/__call__/__iter__/__enter__/__add__, '
          'augmented assignment, isinstance - executed with every probe recording the set of run-time classes, then '
          'Script.infer at every reached probe: every run-time class is reported; exactly that class where one '
-         'creation site reaches the probe through straight code.',
+         'creation site reaches the probe through straight code. The class families of gen/descbind.py (descriptor '
+         'binding through inheritance: inherited classmethod / staticmethod / property / user descriptor reached through '
+         'a subclass object, an instance, a class held in a variable or class attribute; `cls(..)`, `type(self)(..)`, '
+         'chains, tuple results) are generated with an interpreter in the loop and judged with exactness at every '
+         'module-level probe outside loops.',
     note='Modelled not verified: only the PyCore fragment is under the theorem (no loops, attribute writes outside __init__, '
          'generators, decorators, containers other than tuples, multi-module). The pretty-printer of the harness '
          'and the name<->index mapping are trusted. Outside the fragment: nothing is claimed by a theorem; the stream '
@@ -565,12 +583,16 @@ def run(ctx):
     reqs = [{'op': 'run', 'prog': e[0], 'fuel': FUEL} for e in encs]
     ctx.bind_items = bind_items(ctx)
     reqs += [A.bind_encode(it['sig'], c) for it in ctx.bind_items for c in it['calls']]
+    nbind = len(reqs) - len(progs)
+    lookup_items = c02_flow.lookup_items(ctx)
+    reqs += [{'op': 'lookup', 'hier': it['hier'], 'names': c02_flow.LOOKUP_NAMES} for it in lookup_items]
     # the Lean driver (one call) runs while the real code is exercised in worker processes
     with ThreadPoolExecutor(1) as pool:
         fut = pool.submit(common.run_driver_parallel, 'C02', reqs) if ctx.model_ok else None
         outs = common.parallel_map('props.c02', 'analyse', progs)
         ctx.bind_outs = common.parallel_map('props.c02', 'analyse_bind', ctx.bind_items)
-        answers = fut.result() if fut is not None else [None] * len(progs)
+        lookup_outs = common.parallel_map('props.c02_flow', 'analyse_lookup', lookup_items)
+        answers = fut.result() if fut is not None else [None] * len(reqs)
     how = 'jedi.Script(source).infer(line, 0) vs executing the program (harness/gen/pycore.py:run)'
     for out, ans, (enc, nm), prog in zip(outs, answers, encs, progs):
         src = out['src']
@@ -622,7 +644,8 @@ def run(ctx):
             elif m['exec'] is not None and out['err'] is None:
                 ctx.tie_broken('correspondence:exec', short({'source': src, 'line': rec['line'],
                                                              'cpython': 'probe not reached', 'model': m['exec']}, 1500))
-    run_bind(ctx, answers[len(progs):] if ctx.model_ok else None, how)
+    run_bind(ctx, answers[len(progs):len(progs) + nbind] if ctx.model_ok else None, how)
+    c02_flow.judge_lookup(ctx, lookup_items, lookup_outs, answers[len(progs) + nbind:])
     # ---- beyond the fragment: argument binding of methods / lambdas, judged by the direct oracle only
     seeds = ['%s-argbind-%d' % (ctx.seed, i) for i in range(ctx.size(40, 800))]
     for recs in common.parallel_map('props.c02', 'analyse_argbind', seeds):
